@@ -424,7 +424,24 @@ def c14_e(ctx: Ctx):
         neg = False
         if isinstance(v, ast.UnaryOp) and isinstance(v.op, ast.Not):
             v, neg = v.operand, True
-        if isinstance(v, ast.Compare) and len(v.ops) == 1:
+        # selection by max()/min() of the pair and an identity test: a tie goes to the element listed first
+        sel = None
+        if isinstance(v, ast.Compare) and len(v.ops) == 1 and isinstance(v.ops[0], (ast.Is, ast.Eq)):
+            for a, b in ((v.left, v.comparators[0]), (v.comparators[0], v.left)):
+                if isinstance(a, ast.Call) and isinstance(a.func, ast.Name) and a.func.id in ("max", "min") and a.args and isinstance(a.args[0], (ast.Tuple, ast.List)) \
+                        and len(a.args[0].elts) == 2 and isinstance(b, ast.Name) and kwarg(a, "key") is not None and "mtime" in canon(kwarg(a, "key")):
+                    first = canon(a.args[0].elts[0])
+                    sel = (a.func.id, first, b.id)
+        if sel is not None:
+            fn_, first, picked = sel
+            if fn_ == "max" and picked == "src" and first == "src" and not neg:
+                out.append(ctx.viol(R, fi, rets[0], f"FileSync.update returns `{canon(rets[0].value)[:60]}`: max() returns the first of equal elements, so with exactly equal modification times the "
+                                    "source counts as 'newest' and a conflicting file is overwritten although the source is not newer"))
+            elif fn_ == "max" and picked == "src" and first == "dst" and not neg:
+                out.append(ctx.ok(R, fi, rets[0], "overwrite iff mtime(source) is strictly greater than mtime(destination) (a tie goes to the destination, which is listed first)"))
+            else:
+                out.append(ctx.inc(R, fi, rets[0], f"selection `{canon(rets[0].value)[:60]}` not decided"))
+        elif isinstance(v, ast.Compare) and len(v.ops) == 1:
             l, r, op = v.left, v.comparators[0], v.ops[0]
             def side(e):
                 t = canon(e)
